@@ -344,3 +344,19 @@ func specHasHandler(op string) bool { _, ok := opcodeEvalFns[op]; return ok }
 //@ option inline
 //@ requires env != nil && env.Client != nil
 //@ ensures[safe] true
+
+// Jumps and calls: one operand; a statement is either given up with an error-level line (no ocode,
+// location counter untouched) or advances the location counter by the estimated size - the jump
+// size estimate whenever that is consulted - and emits one ocode. (That the estimate equals the
+// emitted length is the subject of estimateJumpSize / getOffsetSize and the C04 findings.)
+
+//@ func processCalcJcc
+//@ props C03 C07
+//@ option no-panic-obligations
+//@ requires env != nil && env.Client != nil && env.SymTable != nil
+//@ requires[A1] forall(0, len(operands), func(k int) bool { return operands[k] != nil })
+//@ ensures[count@C07] len(operands) != 1 ==> vcLoggedError() && !vcCalled("Emit") && env.LOC == old(env.LOC)
+//@ ensures[nodrop@C07] vcCalled("Emit") || vcLoggedError()
+//@ ensures[loc@C03] vcCalled("Emit") && vcCalled("estimateJumpSize") ==> env.LOC == old(env.LOC)+vcResult[int32]("estimateJumpSize", 0)
+//@ ensures[loc.pos@C03] vcCalled("Emit") ==> env.LOC != old(env.LOC)
+//@ assigns Pass1.LOC, ocodeClient.Ocodes, map[string]int32
